@@ -15,9 +15,9 @@ def reader_cfgs(rows):
         kw = dict(kw)
         extra = kw.pop("extra", None)   # data-level variations that do not change the concurrency model
         detail = list(chunks)
-        # "U" (dependent uncompressed chunk) and "P" (uncompressed + props-reset LZMA chunk, both dependent) are
-        # data-level variations of a dependent chunk: the concurrency model sees "D"
-        chunks = ["D" if k in ("U", "P") else k for k in chunks]
+        # "U" (dependent uncompressed chunk) and "P" (uncompressed chunk + props-reset LZMA chunk, both dependent) are
+        # data-level variations of dependent chunks: the concurrency model sees "D" and "D","D"
+        chunks = [x for k in chunks for x in (["D", "D"] if k == "P" else ["D"] if k == "U" else [k])]
         if detail != chunks:
             extra = dict(extra or {}, chunks=detail)
         consts = mtlib.reader_consts(kind, workers, chunks, **kw)
